@@ -122,8 +122,12 @@ def model(sym):
                     thread_body(self)
             return object.__getattribute__(self, name)
 
+    import ascmhl.logger as LG
+    verbose_cmd = sym.flag("command_run_with_v")
     saved = (U.requests, CLI.updater, CLI.click)
+    saved_lg = (LG.click, LG.verbose_logging)
     U.requests, CLI.click = fake_requests, fake_click
+    LG.click, LG.verbose_logging = fake_click, verbose_cmd
     try:
         spy = Spy()
         pse.require(st.get("started") == 1, "thread-started-once", str(st.get("started")))
@@ -150,6 +154,7 @@ def model(sym):
             pse.require("update" in p.lower(), "unexpected-output", p)
     finally:
         U.requests, CLI.updater, CLI.click = saved
+        LG.click, LG.verbose_logging = saved_lg
 
 
 REAL_SCRIPT = r'''
@@ -166,15 +171,15 @@ def get(url, *a, **k):
 requests.get = get
 t0 = time.time()
 from click.testing import CliRunner
+v = ["-v"] if cfg.get("verbose") else []
 if cfg["tool"] == "ascmhl":
     from ascmhl.cli.ascmhl import mhltool_cli as cli
-    argv = ["info", cfg["dir"]]
+    argv = ["info"] + v + [cfg["dir"]]
 else:
     from ascmhl.cli.ascmhl_debug import mhldebugtool_cli as cli
-    argv = ["hash", "-h", "md5", os.path.join(cfg["dir"], "f.txt")]
+    argv = ["verify"] + v + [cfg["dir"]]
 import ascmhl.commands as C
-if cfg["tool"] == "ascmhl":
-    CliRunner().invoke(C.create, [cfg["dir"], "-h", "md5"])   # a sealed folder, so that `info` succeeds and the result callback runs
+CliRunner().invoke(C.create, [cfg["dir"], "-h", "md5"])   # a sealed folder, so that the command succeeds and the result callback runs
 bare = CliRunner(mix_stderr=False).invoke(getattr(C, argv[0]), argv[1:])   # the command itself, outside the group: no update check
 t0 = time.time()
 res = CliRunner(mix_stderr=False).invoke(cli, argv)
@@ -206,12 +211,13 @@ def real(sym):
     L = sym.choose("response_latency_ms", LATENCIES) if not hang else HANG
     sym.int("command_duration_ms", 0, 5000)
     sym.int("late_thread_runs_before_read", 1, 9)
+    verbose_cmd = sym.flag("command_run_with_v")
     d = tempfile.mkdtemp(prefix="mhlverif-c20-")
     try:
         open(os.path.join(d, "f.txt"), "w").write("x")
-        base = run_real({"tool": tool, "behaviour": "conn-error", "latency_s": 0, "dir": d})  # timing reference only
+        base = run_real({"tool": tool, "behaviour": "conn-error", "latency_s": 0, "dir": d, "verbose": verbose_cmd})  # timing reference only
         lat = 20.0 if hang else min(L, 4000) / 1000.0
-        got = run_real({"tool": tool, "behaviour": behaviour, "latency_s": lat, "dir": d})
+        got = run_real({"tool": tool, "behaviour": behaviour, "latency_s": lat, "dir": d, "verbose": verbose_cmd})
         tag = "server %s latency %.1fs%s" % (behaviour, lat, " (hang)" if hang else "")
         pse.require(got.get("exit") is not None, "command-did-not-finish", "%s: %s" % (tag, str(got)[:300]))
         pse.require(got["exc"] == got["bare_exc"], "result-callback-raises", "%s: %s" % (tag, got.get("exc")))
